@@ -309,6 +309,43 @@ def _task(args):
     return st, vios, sample
 
 
+def _task_env(args):
+    """the same cases for the definitions with date / time fields under process time zones east and west of Greenwich"""
+    import os
+    import time as _time
+    idxs, = args
+    old_tz = os.environ.get("TZ")
+    tot, vios_all = None, []
+    try:
+        for tz in ("JST-9", "PST8", "NZST-12"):
+            os.environ["TZ"] = tz
+            _time.tzset()
+            st, vios, _ = _task((idxs, 1))
+            for v in vios:
+                v["detail"] = v["detail"].replace("] ", f", process time zone {tz}] ", 1)
+                v["facts"] = dict(v.get("facts", {}), tz=tz)           # the mechanism stays: a listed finding is the same finding in any time zone
+                v["signature"] = "env:" + v.get("signature", "")
+                v["case"] = dict(v.get("case", {}), tz=tz)
+            vios_all += vios
+            if tot is None:
+                tot = dict(st)
+            else:
+                for k in st:
+                    if isinstance(st[k], int):
+                        tot[k] = tot.get(k, 0) + st[k]
+    finally:
+        if old_tz is None:
+            os.environ.pop("TZ", None)
+        else:
+            os.environ["TZ"] = old_tz
+        _time.tzset()
+    return tot, vios_all, None
+
+
+def _dispatch(t):
+    return _task_env(t[1]) if t[0] == "env" else _task(t[1])
+
+
 def run(ctx):
     db = refdb.db()
     enc_defs = [d.idx for d in db.defs if d.encodable]
@@ -329,7 +366,8 @@ def run(ctx):
             j = weight.index(min(weight))
             buckets[j] += part
             weight[j] += sum(len(db.defs[i].fields) ** 2 for i in part)
-    results = common.pmap(_task, [(b, k) for b in buckets if b])
+    timed = [i for i in enc_defs if any(f.type in ("DATE", "TIME") for f in db.defs[i].fields)]
+    results = common.pmap(_dispatch, [("main", (b, k)) for b in buckets if b] + [("env", (timed,))])
     vios, samples = [], []
     tot = {"cases": 0, "encoded": 0, "rejected": 0, "nontrivial": 0, "defs": 0, "skipped_defs": 0, "base_not_encodable": 0}
     for st, v, s in results:
@@ -345,7 +383,7 @@ def run(ctx):
                 "non-trivial = a value assignment (not a removal)",
         "samples": samples, "encodable_definitions_exercised": tot["defs"], "definitions_skipped_no_base": tot["skipped_defs"], "definitions_whose_base_does_not_encode": tot["base_not_encodable"],
         "payloads_produced": tot["encoded"], "rejected_with_ValueError": tot["rejected"],
-        "bound_completed": f"k={k} fields at a time over the value alphabet; every field removed once; k=1 again for the definitions sharing a PGN on one encoder, forward and backward", "exhaustive": True,
+        "bound_completed": f"k={k} fields at a time over the value alphabet; every field removed once; k=1 again for the definitions sharing a PGN on one encoder, forward and backward; definitions with date / time fields again under 3 process time zones", "exhaustive": True,
     }
     return {"coverage": cov, "violations": vios,
             "assumptions": ["a value is requested by setting value and raw_value as the decoder would report them",
@@ -356,7 +394,11 @@ def replay(ctx, rep):
     c = rep["case"]
     db = refdb.db()
     defn = db.by_id[(c["pgn"], c["definition"])]
-    st, vios, _ = _task(([defn.idx], max(1, len(c.get("set", [])))))
+    if c.get("tz"):
+        st, vios, _ = _task_env(([defn.idx],))
+        vios = [v for v in vios if v["case"].get("tz") == c["tz"]]
+    else:
+        st, vios, _ = _task(([defn.idx], max(1, len(c.get("set", [])))))
     want = json_key(c)
     return [v for v in vios if json_key(v["case"]) == want] or [v for v in vios if v["kind"] == rep.get("kind")][:1]
 
